@@ -291,7 +291,7 @@ def work(shard, seed, tier):
                        sample={"ops": ops, "decoded": info["decoded"]})
 
     campaign(acc, strat, execute, n, seed * 1000 + shard["i"], to_case=to_case,
-             budget=Budget(30 if tier == "quick" else 500))
+             budget=Budget(300 if tier == "quick" else 1500))
     return acc
 
 
